@@ -201,8 +201,12 @@ func (l *c14Gate) Write(p string, data io.Reader) (string, error) {
 	if err != nil {
 		return "", err
 	}
-	if path.Base(p) == "checkpoints" {
-		l.storageCall() // the document written into the artifact (D53 repair): a storage call of the creation
+	if path.Base(p) == "checkpoints" || path.Base(p) == "job.savepoint" {
+		// the document, or (D65 repair) job.savepoint, written into the artifact: a storage call of the creation
+		l.storageCall()
+	}
+	if path.Base(p) == "job.savepoint" {
+		defer func() { l.spCopies.Add(1) }()
 	}
 	if strings.HasSuffix(p, ".snapshot") {
 		c := &c14Parked{path: p, rel: make(chan struct{})}
